@@ -13,6 +13,7 @@ import Driver.MultiRefD
 import Driver.IsolationD
 import Driver.WsdlD
 import Driver.XsdD
+import Driver.BindD
 /-! Line-protocol driver: one JSON object per stdin line, one per stdout line. -/
 open Lean Driver
 
@@ -42,6 +43,7 @@ def dispatch (j : Json) : R Json := do
   | "wsdl.exposed" => wsdlExposed j
   | "xsd.parse" => xsdParse j
   | "xsd.serialize" => xsdSerialize j
+  | "bind.call" => bindCall j
   | _ => throw s!"unknown op {op}"
 
 def handleLine (line : String) : String :=
